@@ -531,6 +531,13 @@ func (f *frame) applyContract(fs *FuncSpec, callee *ssa.Function, sig *types.Sig
 			}
 		}
 		if !bound {
+			// a caller that has a ghost of the same name and type passes it on (e.g. recursion, wrappers)
+			if gv, ok := f.ghostVars()[g.Name]; ok && len(gv.L) == len(leavesOf(gt)) {
+				envPre.vars[g.Name] = gv
+				bound = true
+			}
+		}
+		if !bound {
 			envPre.vars[g.Name] = c.freshVal("ghost_"+g.Name, gt)
 		}
 	}
